@@ -203,6 +203,57 @@ def rule_p2(ctx, F):
         ctx.gate("P3", fn, retry, [("re-fetch only after a decode error", "self->data.lookahead == -1", True), ("…with fewer than 4 bytes left in the chunk", "_ < 4", True)], accept_desc="the chunk re-fetch")
 
 
+class BufferMonitor(Monitor):
+    """lexer.debug_buffer doubles as the external scanner's serialization buffer.  m: 0 = free,
+    1 = holds a serialized state still to be consumed, 2 = that state was overwritten."""
+
+    def __init__(self, ser, consume, writes):
+        self.ser, self.consume, self.writes = set(ser), set(consume), set(writes)
+
+    def elem(self, m, pt, e, s):
+        if pt in self.consume:
+            if m == 2:
+                return Viol("the serialized scanner state is copied out of debug_buffer after something else (a LOG line) wrote into the buffer", pt)
+            return m
+        if pt in self.writes and m == 1:
+            return 2
+        if pt in self.ser:
+            return 1
+        return m
+
+
+def rule_p4(ctx, F):
+    """Logging neutrality: log formatting shares lexer.debug_buffer with the scanner state."""
+    fn = ctx.need_fn(F, "ts_parser__lex", "P4")
+    if not fn:
+        return
+    ser = [pt for pt, n in find(fn, "ts_parser__external_scanner_serialize(self)")]
+    consume = [pt for pt, n in find(fn, "ts_external_scanner_state_init(_, self->lexer.debug_buffer, _)")]
+    writes = [pt for pt, c in fn.calls() if c.get("fn") in ("snprintf", "vsnprintf", "memcpy", "ts_lexer__log") and "debug_buffer" in show(c["a"][0])] + \
+             [pt for pt, c in fn.calls() if c.get("fn") in ("ts_parser__log",)]
+    ctx.floor("log writes into debug_buffer in ts_parser__lex", len(writes), 4)
+    if not ser or not consume:
+        ctx.bad("P4", "ts_parser__lex:buffer-anchors", "serialize (%d) / state_init from debug_buffer (%d) not found" % (len(ser), len(consume)))
+        return
+    s = Search(fn, BufferMonitor(ser, consume, writes))
+    v = s.run(0)
+    if v is None:
+        ctx.ok("P4", "ts_parser__lex:log-does-not-clobber-scanner-state", "on no feasible path does a log line write into debug_buffer between serializing the scanner state and copying it into the token (%d states)" % s.states,
+               sample={"function": fn.name, "serialize": [fn.loc(p) for p in ser], "consume": [fn.loc(p) for p in consume], "log_writes": len(writes)})
+    else:
+        ctx.bad("P4", "ts_parser__lex:log-clobbers-scanner-state", "ts_parser__lex: %s (%s) — with a logger installed the token carries log text as its scanner state and later scanning diverges" % (v.msg, fn.loc(v.pt)),
+                {"path": s.render_path(v.path)[-8:]})
+    # the comparison that decides `state_changed` also reads the buffer: it must directly follow the serialize
+    cmp_ = [pt for pt, n in find(fn, "ts_external_scanner_state_eq(_, self->lexer.debug_buffer, _)")]
+    if cmp_:
+        s2 = Search(fn, BufferMonitor(ser, cmp_, writes))
+        v2 = s2.run(0)
+        if v2 is None:
+            ctx.ok("P4", "ts_parser__lex:state-compare-reads-fresh-buffer", "the scanner-state comparison reads the buffer before any log line can overwrite it")
+        else:
+            ctx.bad("P4", "ts_parser__lex:state-compare-reads-clobbered-buffer", "ts_parser__lex: %s" % v2.msg)
+
+
 def run(ctx):
     for cfg in configs(ctx):
         ctx.config = cfg
@@ -211,6 +262,7 @@ def run(ctx):
         rule_f1(ctx, F)
         rule_p1(ctx, F)
         rule_p2(ctx, F)
+        rule_p4(ctx, F)
     return ctx.finish(
         "Field-coverage and ordering rules over parser.c/lexer.c: each of TSParser's 24 fields is classified and every RESET field is re-initialised on all paths "
         "of ts_parser_reset; completion and language change pass ts_parser_reset; a resumed parse stores to no parser state before the loop; a new input discards "
